@@ -444,6 +444,21 @@ func c11TrimPoint(r *core.Run, c rune) *core.Violation {
 	if k := refDiff(o, want); k != "" {
 		return mk("reference/"+k, want.String())
 	}
+	// the same code point written as an escape in a quoted identifier (member name and hash key) and in a JSON literal
+	esc := c16U(c)
+	for _, e := range []string{`{"` + esc + `": @} | keys(@)[0]`, `{"a` + esc + `b": @} | keys(@)[0] | length(@)`, "`\"" + esc + "\"`", `k."` + esc + `"`, `reverse(keys({"` + esc + `x": @})[0])`} {
+		o2 := core.Search(e, d.Raw)
+		r.Add("evaluations", 1)
+		if o2.Kind == "ok" && !core.ValidUTF8(o2.Raw) {
+			o = o2
+			return mk("invalid-utf8", "valid UTF-8 from "+e)
+		}
+		w2 := ref.Eval(e, d.Norm)
+		if k := refDiff(o2, w2); k != "" {
+			o = o2
+			return mk("reference/"+k, w2.String()+" from "+e)
+		}
+	}
 	return nil
 }
 
